@@ -1,6 +1,11 @@
 HOOK_COMMITS = []
-IMPLEMENTED = {"C01", "C05", "C09", "C14", "C18"}
+IMPLEMENTED = {"C01", "C02", "C05", "C09", "C14", "C18"}
 TABLE = {
+ "C02": {
+  "technique": "exhaustive enumeration of input categories x timestamp orderings against a table-driven reference model, plus metamorphic relations (proptest for values/arity)",
+  "text": "Every assignment of {Err(1), Err(2), None, Some} to the inputs of each of the 16 combinators (plus NoneGetter, ConstantGetter) is crossed with every weak ordering of the input timestamps, both boolean values, clock ok/err and age <,=,> limit, for f32 and Quantity payloads; the real stream's outcome (category, error identity, timestamp, bit-exact value, unit) is compared with a reference written from the rustdoc; second read == first read; Sum2/Product2 == n-ary; De Morgan duality. Exhaustive over the finite category space, values sampled.",
+  "note": "Inputs are scripted getters; If/IfElse/Expirer/NoneToValue consult secondary inputs lazily as documented; newest-of ties accept any newest candidate.",
+ },
  "C01": {
   "technique": "exhaustive enumeration of the 49x49 unit grid x operator forms + random exponents/values (proptest) against independent exponent arithmetic and the raw f32 operators",
   "text": "All 2401 ordered pairs of grid units are crossed with all 52 operator forms (Quantity/Time/DimensionlessInteger binary and assign forms, bare-Unit forms, neg, abs, ==, orderings) and three value pairs; result unit, bit-exact value and panic/no-panic are compared with an independent model; named constants are checked against a parser of their names; conversions over all 49 units; plus random exponents up to |60| and arbitrary finite f32s. Exhaustive on the grid the quantifier names, sampled beyond it.",
